@@ -18,6 +18,10 @@ pub struct NumSpec {
     pub mult: Option<String>,
     /// 0: 2020-12 numeric exclusive keywords, 1: draft-4 boolean form, 2: multipleOf under allOf
     pub form: u8,
+    /// a second bound of the *other* keyword on the same side (form 0 only): when `lo` is
+    /// `minimum`, `lo2` is an `exclusiveMinimum` and vice versa; same for `hi2`
+    pub lo2: Option<String>,
+    pub hi2: Option<String>,
 }
 
 impl NumSpec {
@@ -43,6 +47,12 @@ impl NumSpec {
             } else {
                 s["maximum"] = numv(b);
             }
+        }
+        if let (Some(b2), Some((_, ex))) = (&self.lo2, &self.lo) {
+            s[if *ex { "minimum" } else { "exclusiveMinimum" }] = numv(b2);
+        }
+        if let (Some(b2), Some((_, ex))) = (&self.hi2, &self.hi) {
+            s[if *ex { "maximum" } else { "exclusiveMaximum" }] = numv(b2);
         }
         if let Some(m) = &self.mult {
             if self.form == 2 {
@@ -73,6 +83,22 @@ impl NumSpec {
                 _ => {}
             }
         }
+        if let (Some(b2), Some((_, ex))) = (&self.lo2, &self.lo) {
+            let b = Dec::parse(b2).unwrap();
+            match v.cmp(&b) {
+                std::cmp::Ordering::Less => return false,
+                std::cmp::Ordering::Equal if !*ex => return false, // lo2 is the exclusive keyword
+                _ => {}
+            }
+        }
+        if let (Some(b2), Some((_, ex))) = (&self.hi2, &self.hi) {
+            let b = Dec::parse(b2).unwrap();
+            match v.cmp(&b) {
+                std::cmp::Ordering::Greater => return false,
+                std::cmp::Ordering::Equal if !*ex => return false,
+                _ => {}
+            }
+        }
         if let Some(m) = &self.mult {
             let m = Dec::parse(m).unwrap();
             if v.is_multiple_of(&m) != Some(true) {
@@ -82,10 +108,42 @@ impl NumSpec {
         true
     }
 
+    /// the tighter of the two lower (upper) bounds: (value, exclusive)
+    fn eff_lo(&self) -> Option<(Dec, bool)> {
+        let a = self.lo.as_ref().map(|(b, e)| (Dec::parse(b).unwrap(), *e));
+        let b = match (&self.lo2, &self.lo) {
+            (Some(b2), Some((_, ex))) => Some((Dec::parse(b2).unwrap(), !*ex)),
+            _ => None,
+        };
+        match (a, b) {
+            (Some(a), Some(b)) => Some(match a.0.cmp(&b.0) {
+                std::cmp::Ordering::Greater => a,
+                std::cmp::Ordering::Less => b,
+                std::cmp::Ordering::Equal => (a.0, a.1 || b.1),
+            }),
+            (a, _) => a,
+        }
+    }
+    fn eff_hi(&self) -> Option<(Dec, bool)> {
+        let a = self.hi.as_ref().map(|(b, e)| (Dec::parse(b).unwrap(), *e));
+        let b = match (&self.hi2, &self.hi) {
+            (Some(b2), Some((_, ex))) => Some((Dec::parse(b2).unwrap(), !*ex)),
+            _ => None,
+        };
+        match (a, b) {
+            (Some(a), Some(b)) => Some(match a.0.cmp(&b.0) {
+                std::cmp::Ordering::Less => a,
+                std::cmp::Ordering::Greater => b,
+                std::cmp::Ordering::Equal => (a.0, a.1 || b.1),
+            }),
+            (a, _) => a,
+        }
+    }
+
     /// does any value satisfy the schema? exact, by integer arithmetic at a common scale
     pub fn satisfiable(&self) -> bool {
-        let lo = self.lo.as_ref().map(|(b, e)| (Dec::parse(b).unwrap(), *e));
-        let hi = self.hi.as_ref().map(|(b, e)| (Dec::parse(b).unwrap(), *e));
+        let lo = self.eff_lo();
+        let hi = self.eff_hi();
         let mult = self.mult.as_ref().map(|m| Dec::parse(m).unwrap());
         let mut scale = 0u32;
         for d in [lo.map(|x| x.0), hi.map(|x| x.0), mult].iter().flatten() {
@@ -177,7 +235,8 @@ pub fn literals(spec: &NumSpec, widen: i64) -> Vec<String> {
         }
     }
     // neighbours of decimal bounds
-    for bnd in [spec.lo.as_ref(), spec.hi.as_ref()].into_iter().flatten() {
+    let extra: Vec<(String, bool)> = [spec.lo2.as_ref(), spec.hi2.as_ref()].into_iter().flatten().map(|b| (b.clone(), true)).collect();
+    for bnd in [spec.lo.as_ref(), spec.hi.as_ref()].into_iter().flatten().chain(extra.iter()) {
         let d = Dec::parse(&bnd.0).unwrap();
         for sc in 1..=3u32 {
             if d.scale > sc {
@@ -226,13 +285,13 @@ pub fn specs(ctx: &Ctx) -> Vec<NumSpec> {
                 for ex in 0..4u8 {
                     for m in mults.iter() {
                         if !ctx.quick() || m.is_none() || (lo + hi) % 2 == 0 {
-                            out.push(NumSpec { integer, lo: Some((lo.to_string(), ex & 1 == 1)), hi: Some((hi.to_string(), ex & 2 == 2)), mult: m.map(|x| x.to_string()), form: 0 });
+                            out.push(NumSpec { integer, lo: Some((lo.to_string(), ex & 1 == 1)), hi: Some((hi.to_string(), ex & 2 == 2)), mult: m.map(|x| x.to_string()), form: 0, lo2: None, hi2: None });
                         }
                     }
                 }
                 if (lo + hi) % 5 == 0 {
-                    out.push(NumSpec { integer, lo: Some((lo.to_string(), true)), hi: Some((hi.to_string(), true)), mult: None, form: 1 });
-                    out.push(NumSpec { integer, lo: Some((lo.to_string(), false)), hi: Some((hi.to_string(), false)), mult: Some(if integer { "2".into() } else { "0.5".into() }), form: 2 });
+                    out.push(NumSpec { integer, lo: Some((lo.to_string(), true)), hi: Some((hi.to_string(), true)), mult: None, form: 1, lo2: None, hi2: None });
+                    out.push(NumSpec { integer, lo: Some((lo.to_string(), false)), hi: Some((hi.to_string(), false)), mult: Some(if integer { "2".into() } else { "0.5".into() }), form: 2, lo2: None, hi2: None });
                 }
             }
         }
@@ -240,31 +299,54 @@ pub fn specs(ctx: &Ctx) -> Vec<NumSpec> {
         for &b in bound_ints.iter() {
             for ex in [false, true] {
                 for m in mults.iter() {
-                    out.push(NumSpec { integer, lo: Some((b.to_string(), ex)), hi: None, mult: m.map(|x| x.to_string()), form: 0 });
-                    out.push(NumSpec { integer, lo: None, hi: Some((b.to_string(), ex)), mult: m.map(|x| x.to_string()), form: 0 });
+                    out.push(NumSpec { integer, lo: Some((b.to_string(), ex)), hi: None, mult: m.map(|x| x.to_string()), form: 0, lo2: None, hi2: None });
+                    out.push(NumSpec { integer, lo: None, hi: Some((b.to_string(), ex)), mult: m.map(|x| x.to_string()), form: 0, lo2: None, hi2: None });
                 }
             }
         }
-        out.push(NumSpec { integer, lo: None, hi: None, mult: None, form: 0 });
+        out.push(NumSpec { integer, lo: None, hi: None, mult: None, form: 0, lo2: None, hi2: None });
+        // both keywords of one side at once (minimum + exclusiveMinimum, maximum + exclusiveMaximum):
+        // every order of the two values in a small window, with and without the other side
+        let bw = ctx.tier.pick(3i64, 6);
+        for a in -bw..=bw {
+            for b in (a - 2)..=(a + 2) {
+                for ex in [false, true] {
+                    for other in [None, Some(a - 4), Some(a + 4)] {
+                        let lo_other = other.filter(|o| *o < a).map(|o| (o.to_string(), false));
+                        let hi_other = other.filter(|o| *o > a).map(|o| (o.to_string(), false));
+                        // two upper bounds
+                        out.push(NumSpec { integer, lo: lo_other.clone(), hi: Some((a.to_string(), ex)), mult: None, form: 0, lo2: None, hi2: Some(b.to_string()) });
+                        // two lower bounds
+                        out.push(NumSpec { integer, lo: Some((a.to_string(), ex)), hi: hi_other.clone(), mult: None, form: 0, lo2: Some(b.to_string()), hi2: None });
+                    }
+                }
+            }
+        }
+        for (a, b) in [("0.5", "0.75"), ("0.75", "0.5"), ("-1.5", "-1.5"), ("2.5", "3")] {
+            for ex in [false, true] {
+                out.push(NumSpec { integer, lo: None, hi: Some((a.to_string(), ex)), mult: None, form: 0, lo2: None, hi2: Some(b.to_string()) });
+                out.push(NumSpec { integer, lo: Some((a.to_string(), ex)), hi: None, mult: None, form: 0, lo2: Some(b.to_string()), hi2: None });
+            }
+        }
         // decimal bounds
         let decs = ["-1.5", "-0.25", "-0.001", "0.001", "0.5", "0.75", "1.25", "2.5", "9.99", "10.01", "-3.125"];
         let decs: Vec<&str> = if ctx.quick() { decs[..6].to_vec() } else { decs.to_vec() };
         for (i, lo) in decs.iter().enumerate() {
             for ex in [false, true] {
-                out.push(NumSpec { integer, lo: Some((lo.to_string(), ex)), hi: None, mult: None, form: 0 });
-                out.push(NumSpec { integer, lo: None, hi: Some((lo.to_string(), ex)), mult: None, form: 0 });
+                out.push(NumSpec { integer, lo: Some((lo.to_string(), ex)), hi: None, mult: None, form: 0, lo2: None, hi2: None });
+                out.push(NumSpec { integer, lo: None, hi: Some((lo.to_string(), ex)), mult: None, form: 0, lo2: None, hi2: None });
             }
             for hi in decs.iter().skip(i) {
                 if Dec::parse(hi).unwrap().cmp(&Dec::parse(lo).unwrap()) == std::cmp::Ordering::Less {
                     continue;
                 }
                 for ex in 0..4u8 {
-                    out.push(NumSpec { integer, lo: Some((lo.to_string(), ex & 1 == 1)), hi: Some((hi.to_string(), ex & 2 == 2)), mult: None, form: 0 });
+                    out.push(NumSpec { integer, lo: Some((lo.to_string(), ex & 1 == 1)), hi: Some((hi.to_string(), ex & 2 == 2)), mult: None, form: 0, lo2: None, hi2: None });
                 }
             }
             for hi_int in [-2i64, 0, 1, 3, 10] {
-                out.push(NumSpec { integer, lo: Some((lo.to_string(), false)), hi: Some((hi_int.to_string(), false)), mult: None, form: 0 });
-                out.push(NumSpec { integer, lo: Some((hi_int.to_string(), true)), hi: Some((lo.to_string(), false)), mult: None, form: 0 });
+                out.push(NumSpec { integer, lo: Some((lo.to_string(), false)), hi: Some((hi_int.to_string(), false)), mult: None, form: 0, lo2: None, hi2: None });
+                out.push(NumSpec { integer, lo: Some((hi_int.to_string(), true)), hi: Some((lo.to_string(), false)), mult: None, form: 0, lo2: None, hi2: None });
             }
         }
         // large magnitudes near powers of ten
@@ -274,10 +356,10 @@ pub fn specs(ctx: &Ctx) -> Vec<NumSpec> {
             for d in [-1i128, 0, 1] {
                 for sign in [1i128, -1] {
                     let b = sign * (p + d);
-                    out.push(NumSpec { integer, lo: Some((b.to_string(), false)), hi: Some(((b + 3).to_string(), false)), mult: None, form: 0 });
-                    out.push(NumSpec { integer, lo: Some(((b - 120).to_string(), true)), hi: Some((b.to_string(), true)), mult: None, form: 0 });
-                    out.push(NumSpec { integer, lo: Some((b.to_string(), false)), hi: None, mult: None, form: 0 });
-                    out.push(NumSpec { integer, lo: None, hi: Some((b.to_string(), false)), mult: None, form: 0 });
+                    out.push(NumSpec { integer, lo: Some((b.to_string(), false)), hi: Some(((b + 3).to_string(), false)), mult: None, form: 0, lo2: None, hi2: None });
+                    out.push(NumSpec { integer, lo: Some(((b - 120).to_string(), true)), hi: Some((b.to_string(), true)), mult: None, form: 0, lo2: None, hi2: None });
+                    out.push(NumSpec { integer, lo: Some((b.to_string(), false)), hi: None, mult: None, form: 0, lo2: None, hi2: None });
+                    out.push(NumSpec { integer, lo: None, hi: Some((b.to_string(), false)), mult: None, form: 0, lo2: None, hi2: None });
                 }
             }
         }
